@@ -128,8 +128,13 @@ int main(void){
     uk_assert(w == 0, "C17: no extra items");
     U(uriFreeQueryListMm)(list, &mm);
   }
+  /* the malloc variant: one block from the supplied manager, released by the caller */
+  { CH *str = 0; rc = U(uriComposeQueryMallocExMm)(&str, it, s2p ? URI_TRUE : URI_FALSE, nb ? URI_TRUE : URI_FALSE, &mm);
+    uk_assert(rc == URI_SUCCESS && str != 0, "C17: uriComposeQueryMallocExMm succeeds");
+    if (str){ for (j = 0; j <= len; j++) uk_assert(str[j] == dest[j], "C17: the malloc variant composes the same text"); uk_assert(uk_live() == 1, "C13: exactly the returned string is outstanding"); mm.free(&mm, str); } }
   uk_cover("round-trip");
-  uk_assert(uk_live() == 0, "C13: query list fully released");
+  uk_assert(uk_live() == 0, "C13: query list and composed string fully released");
+  uk_assert(uk_libc_calls() == 0, "C13: no C library allocator call while a custom manager is supplied");
   return 0;
 }
 #endif
